@@ -1,5 +1,5 @@
 """C06 - unrepresentable operands are rejected, never truncated; legal ones accepted."""
-from ..core import Report, Finding
+from ..core import Report, Finding, AnalysisError
 from ..facts import Facts
 from .. import oracle, encprops
 from ..encsum import all_summaries
@@ -63,7 +63,26 @@ def run(repo, tier):
             sites.add((r['fn'], r['node'].lineno))
     rep.analysed['refusal sites reached'] = len(sites)
     encprops.check_registers(rep, facts, 'R6.registers')
+    # text front end: an operand token of an accepted line may not be silently ignored (c.lwsp x1, 8(x9) must not assemble as sp-relative)
+    encprops.check_ignored_tokens(rep, facts, 'R6.ignored-operand')
     check_bake_identity(rep, facts, 'R6.bake-identity')
+    # an operand is the integer its expression evaluates to: an expression whose value is not an integer (7/2, 2047.9) is
+    # unrepresentable and has to be refused, not rounded into range (the rule itself lives with C11)
+    from .c11 import check_integer_results
+    scratch = Report('C06', LEVEL, '')
+    und_ = []
+    try:
+        check_integer_results(scratch, facts, und_)
+    except AnalysisError as e:
+        und_.append(str(e))
+    for f in scratch.findings:
+        f.rule = 'R6.integer-operand'
+        rep.fail(f, instance='operand expressions evaluate to exact integers or are refused')
+    if not scratch.findings:
+        if und_:
+            rep.undecided(und_[0])
+        else:
+            rep.ok('R6.integer-operand', 'operand expressions evaluate to exact integers or are refused')
     # an operand that a compression rule drops never reaches an encoder: the rule itself has to pin it to the one value the
     # compressed form stands for, or an out-of-range operand (addi x0, x0, 5000 -> c.nop) is accepted under -c
     from ..comprel import CompRel, check_final_immediates
